@@ -170,6 +170,15 @@ def _bounds(c, rho=0.0, width=0.0, lam=0.0):
                    "emo": ABS_EMO + K_EMO * ee * A}
 
 
+def _finite(out, row=0):
+    """every reported quantity of a row is finite (NaN-safe gate: a non-finite result flagged converged is a violation)"""
+    try:
+        return bool(all(np.isfinite(np.asarray(out[k][row], float)).all() for k in ("Etot", "force", "q", "dm", "e_mo"))
+                    and np.isfinite(float(np.asarray(out["gap"]).reshape(-1)[row] if np.asarray(out["gap"]).size > row else np.nan)))
+    except Exception:
+        return False
+
+
 def _errors(out, ref, norb):
     e = {"E": abs(float(out["Etot"][0]) - float(ref["Etot"][0])),
          "F": float(np.abs(out["force"][0] - ref["force"][0]).max()),
@@ -218,6 +227,12 @@ def _run_batch(case):
         rm = run.single_point(Z, Xd, run.settings(method, eps=1e-11, converger=(0, 0.3)), charges=q, mult=1)
         mon["batch_reference_runs"] += 2
         okp, okm = not bool(np.any(rp["notconverged"])), not bool(np.any(rm["notconverged"]))
+        for ok_, r_, cv_ in ((okp, rp, [2]), (okm, rm, [0, 0.3])):
+            if ok_ and not _finite(r_):
+                viol.append({"clause": "non-finite-result-flagged-converged", "mech": None,
+                             "detail": {"candidate": {"conv": cv_, "eps": 1e-11, "start": "cold"}, "molecule": mm["name"],
+                                        "species": Z, "coords": Xd.tolist()}})
+        okp, okm = okp and _finite(rp), okm and _finite(rm)
         ref = None
         if okp and okm:
             if abs(float(rp["Etot"][0]) - float(rm["Etot"][0])) <= DISTINCT_E:
@@ -281,6 +296,10 @@ def _run_batch(case):
                 continue
             if flag[b]:
                 mon["batch_rows_not_converged"] += 1
+                continue
+            if not _finite(out, b):
+                viol.append({"clause": "non-finite-result-flagged-converged", "mech": None,
+                             "detail": {"candidate": c, "row": b, "molecule": case["mols"][b]["name"], "species": S, "coords": C}})
                 continue
             Z, Xd, q = mols[b]
             norb = sum(4 if z > 1 else 1 for z in Z)
@@ -427,6 +446,11 @@ def run_case(case):
             state["lam"] = float(min(max((el.contraction() - 0.3) / 0.7, 0.0), 0.98))
         mon["reference_runs"] += 2
         okp, okm = not bool(np.any(rp["notconverged"])), not bool(np.any(rm["notconverged"]))
+        for ok_, r_, cv_ in ((okp, rp, ref_pul), (okm, rm, ref_mix)):
+            if ok_ and not _finite(r_):
+                viol.append({"clause": "non-finite-result-flagged-converged", "mech": None,
+                             "detail": {"candidate": cv_, "where": k, "species": Z, "coords": Xk.tolist(), "charge": q}})
+        okp, okm = okp and _finite(rp), okm and _finite(rm)
         if okp and okm and abs(float(rp["Etot"][0]) - float(rm["Etot"][0])) <= DISTINCT_E:
             mon["reference_paths_agree"] += 1
             refs[k] = rp
@@ -630,8 +654,7 @@ def run_case(case):
         if bool(np.any(out["notconverged"])):
             mon["candidates_not_converged"] += 1
             return None
-        finite = all(np.isfinite(np.asarray(out[k], float)).all() for k in ("Etot", "force", "q", "dm"))
-        if not finite:
+        if not _finite(out):
             mon["candidates_nonfinite"] += 1
             viol.append({"clause": "non-finite-result-flagged-converged",
                          "mech": "ksa-nan-density-flagged-converged" if c["conv"][0] == 3 else None,
